@@ -28,7 +28,7 @@ def _run_stage(g, stage, payload):
     """returns None | ('raise', exc) | ('nonterm', lines)"""
     scfg = M.mk_scfg(g, payload)
     old = signal.signal(signal.SIGALRM, _alarm)
-    signal.setitimer(signal.ITIMER_REAL, WATCHDOG_S)
+    signal.setitimer(signal.ITIMER_REAL, WATCHDOG_S + len(g) // 2)
     try:
         try:
             M.apply_stage(scfg, stage)
@@ -42,11 +42,14 @@ def _run_stage(g, stage, payload):
         return ("raise", e)
     # the watchdog is not a verdict: re-run under a deterministic line budget
     cnt = [0]
+    # measured: the if/else ladder needs 5.4e6 traced lines at 129 blocks and 3.6e7 at 257 (about cubic); the budget
+    # stays > 15x above that curve
+    budget = max(LINE_BUDGET, 40 * len(g) ** 3)
 
     def tr(frame, ev, arg):
         if ev == "line":
             cnt[0] += 1
-            if cnt[0] > LINE_BUDGET:
+            if cnt[0] > budget:
                 raise _Budget()
         return tr
 
